@@ -404,6 +404,84 @@ func scenario(x *explore.X, bin string) {
 	x.Outcome(fmt.Sprintf("%s/%s/%s", carrier, form, level))
 }
 
+// otherCommandsKey (Engine B): the other commands of the binary that serve TLS with an inline key (forwarder pac
+// server, forwarder test httpbin --protocol https --tls-key-file data:...): their start-up log at every level.
+func otherCommandsKey(x *explore.X, bin string) {
+	pkiOnce.Do(func() { srvPair, caPair = genPair(false), genPair(true) })
+	command := []string{"pac server", "test httpbin"}[x.ChooseFree("command", 2)]
+	level := levels[x.ChooseFree("log-level", len(levels))]
+	form := []string{"flag", "env"}[x.ChooseFree("form", 2)]
+	dir, _ := os.MkdirTemp("", "c19o-")
+	defer os.RemoveAll(dir)
+	port := freePort()
+	opts := map[string]string{"address": "127.0.0.1:" + port, "protocol": "https", "log-level": level,
+		"tls-cert-file": dataURI("data:", srvPair.cert), "tls-key-file": dataURI("data:", srvPair.key)}
+	args := strings.Fields(command)
+	if command == "pac server" {
+		pf := filepath.Join(dir, "p.pac")
+		os.WriteFile(pf, []byte(`function FindProxyForURL(url, host) { return "DIRECT"; }`), 0o600)
+		opts["pac"] = pf
+	}
+	env := append(os.Environ(), "NO_COLOR=1")
+	for k, v := range opts {
+		if form == "flag" {
+			args = append(args, "--"+k+"="+v)
+		} else {
+			env = append(env, "FORWARDER_"+strings.ToUpper(strings.ReplaceAll(k, "-", "_"))+"="+v)
+		}
+	}
+	cmd := exec.Command(bin, args...)
+	cmd.Env = env
+	var out lockedBuf
+	cmd.Stdout, cmd.Stderr = &out, &out
+	if err := cmd.Start(); err != nil {
+		x.Failf("harness/start", "%v", err)
+		return
+	}
+	exited := make(chan error, 1)
+	go func() { exited <- cmd.Wait() }()
+	ready := false
+	for i := 0; i < 2400 && !ready; i++ {
+		select {
+		case err := <-exited:
+			exited <- err
+			i = 1 << 30
+		default:
+		}
+		if c, err := net.DialTimeout("tcp", "127.0.0.1:"+port, 100*time.Millisecond); err == nil {
+			c.Close()
+			ready = true
+		} else {
+			time.Sleep(25 * time.Millisecond)
+		}
+	}
+	cmd.Process.Signal(syscall.SIGTERM)
+	select {
+	case <-exited:
+	case <-time.After(8 * time.Second):
+		cmd.Process.Kill()
+		<-exited
+	}
+	what := fmt.Sprintf("forwarder %s, form=%s log-level=%s", command, form, level)
+	x.Logf("%s ready=%v", what, ready)
+	if !ready {
+		x.Failf("harness/not-ready", "%s: the command did not come up: %s", what, out.String())
+		return
+	}
+	x.Check()
+	text := out.String()
+	b64 := base64.StdEncoding.EncodeToString(srvPair.key)
+	for _, n := range []string{b64, b64[20:60], strings.Split(string(srvPair.key), "\n")[1]} {
+		if strings.Contains(text, n) {
+			i := strings.Index(text, n)
+			lo, hi := max(0, i-160), min(len(text), i+60)
+			x.Failf("secret-disclosed/start-up-log/"+strings.ReplaceAll(command, " ", "-"), "%s: the start-up log contains the inline private key: …%s…", what, text[lo:hi])
+			return
+		}
+	}
+	x.Outcome(command + "/" + level)
+}
+
 // refusedAtStartUp (Engine B): configurations in which every secret-bearing value is well-formed but the
 // configuration as a whole is refused (two --credentials entries for the same key; a valid secret next to another
 // option that is invalid): what the binary prints before it exits - the start-up log up to and including the
@@ -499,10 +577,11 @@ func TestC19(t *testing.T) {
 		t.Fatal("VERIF_FORWARDER_BIN not set (the check driver builds cmd/forwarder from the working tree)")
 	}
 	s := explore.NewSuite(t, "C19", "exploration",
-		"the real forwarder binary (built from the working tree without hooks) is started for every combination of carrier(6: --basic-auth, --api-basic-auth, --proxy userinfo, --credentials, data: URI of --tls-key-file, data: URI of --mitm-cakey-file, the scheme spelt data: / Data: / DATA: - a spelling the binary takes for a file name makes it refuse to start and demands nothing) x secret(6 passwords incl. ':', '@', '%41', non-ASCII with '/', space) x form(flag, FORWARDER_* environment, YAML config file) x log level(3) x log-http mode(errors, none, short-url, url) with at most D deviations (D=2 quick) or as the full product (thorough, inadmissible combinations skipped); successful exchanges (GET through the upstream proxy or with injected site credentials, CONNECT), /configz, then a 407 and an upstream failure; stdout+stderr after the successful exchanges and at exit (not for log-http=errors), the /configz body and the error responses are searched for the secret literally, URL-escaped and base64-encoded (alone and as user:secret); the redaction placeholder and the user names must be present; plus (error-responses, in-process proxy on the virtual clock) password(7, incl. one of 300 octets) x {--proxy userinfo, --credentials entry for the proxy} x {http upstream, socks5 upstream, PAC result SOCKS4 / SOCKS (unsupported) with a table entry for that proxy} x {GET, CONNECT through the upstream proxy} x 7 upstream faults (refused, black-holed, 403/no acceptable method, 407/credentials rejected, never answers [one virtual minute], closes, garbage) [full product]: the response sent to the client is searched in the same way; plus (refused-at-start-up) the binary started with a configuration that is refused as a whole - two --credentials entries for the same key (exact, host:*, *:*) or a well-formed secret next to an invalid other option - x password x {flag, environment} x log level [full product]: everything it prints before it exits is searched; plus (request-log-lines, in-process) two proxy instances in one process with their own log-http modes - A in {errors, headers, body} serving 1-2 exchanges answered 503 with injected site credentials, then B in {short-url, url, none, errors} serving a successful one - x password(6) [full product]: B's request log lines are searched; non-trivial = the binary served the exchanges and was scanned")
+		"the real forwarder binary (built from the working tree without hooks) is started for every combination of carrier(6: --basic-auth, --api-basic-auth, --proxy userinfo, --credentials, data: URI of --tls-key-file, data: URI of --mitm-cakey-file, the scheme spelt data: / Data: / DATA: - a spelling the binary takes for a file name makes it refuse to start and demands nothing) x secret(6 passwords incl. ':', '@', '%41', non-ASCII with '/', space) x form(flag, FORWARDER_* environment, YAML config file) x log level(3) x log-http mode(errors, none, short-url, url) with at most D deviations (D=2 quick) or as the full product (thorough, inadmissible combinations skipped); successful exchanges (GET through the upstream proxy or with injected site credentials, CONNECT), /configz, then a 407 and an upstream failure; stdout+stderr after the successful exchanges and at exit (not for log-http=errors), the /configz body and the error responses are searched for the secret literally, URL-escaped and base64-encoded (alone and as user:secret); the redaction placeholder and the user names must be present; plus (error-responses, in-process proxy on the virtual clock) password(7, incl. one of 300 octets) x {--proxy userinfo, --credentials entry for the proxy} x {http upstream, socks5 upstream, PAC result SOCKS4 / SOCKS (unsupported) with a table entry for that proxy} x {GET, CONNECT through the upstream proxy} x 7 upstream faults (refused, black-holed, 403/no acceptable method, 407/credentials rejected, never answers [one virtual minute], closes, garbage) [full product]: the response sent to the client is searched in the same way; plus (other-commands-with-an-inline-key) forwarder pac server / forwarder test httpbin with --protocol https and an inline --tls-key-file x {flag, environment} x log level: start-up log searched for the key; plus (refused-at-start-up) the binary started with a configuration that is refused as a whole - two --credentials entries for the same key (exact, host:*, *:*) or a well-formed secret next to an invalid other option - x password x {flag, environment} x log level [full product]: everything it prints before it exits is searched; plus (request-log-lines, in-process) two proxy instances in one process with their own log-http modes - A in {errors, headers, body} serving 1-2 exchanges answered 503 with injected site credentials, then B in {short-url, url, none, errors} serving a successful one - x password(6) [full product]: B's request log lines are searched; non-trivial = the binary served the exchanges and was scanned")
 	s.Assume = []string{"real time is used only as a liveness guard for the subprocess (no timing oracle)", "loopback TCP is available in the sandbox", "CLI usage errors that echo an inadmissible argument are outside the statement"}
 	s.Add(explore.Scenario{Name: "bounded", Tiers: []string{"quick"}, MaxDev: map[string]int{"quick": 2}, Run: func(x *explore.X) { scenario(x, bin) }})
 	s.Add(explore.Scenario{Name: "product", Tiers: []string{"thorough"}, Run: func(x *explore.X) { scenario(x, bin) }})
+	s.Add(explore.Scenario{Name: "other-commands-with-an-inline-key", Run: func(x *explore.X) { otherCommandsKey(x, bin) }})
 	s.Add(explore.Scenario{Name: "refused-at-start-up", Run: func(x *explore.X) { refusedAtStartUp(x, bin) }})
 	s.Add(explore.Scenario{Name: "error-responses", Remote: true, Run: func(x *explore.X) { world.Run(t, x, func() { errorResponses(x) }) }})
 	s.Add(explore.Scenario{Name: "request-log-lines", Remote: true, Run: func(x *explore.X) { world.Run(t, x, func() { requestLogLines(x) }) }})
